@@ -172,6 +172,13 @@ def extract(repo):
             raise ValueError('msp casts')
         return [w['start'], w['len'], w['minimizer_pos'], sh, maxp, sb, mb, rsh]
     pin('msp', msp_pins)
+
+    # dna_string.rs (C20): Debug of DnaStringSlice prints the bases below this length, a summary otherwise
+    def slice_debug_pin():
+        ds = rd('dna_string.rs')
+        body = fn_body(ds, r"impl\s*<\s*'a\s*>\s*fmt::Debug\s+for\s+DnaStringSlice\s*<\s*'a\s*>\s*\{")
+        return lit(re.search(r'if\s+self\.length\s*<\s*(\w+)\s*\{', body).group(1))
+    pin('slice_debug_limit', slice_debug_pin)
     return items, stale
 
 
@@ -327,6 +334,10 @@ def render(items):
         for nm, v in zip(('msp_start_bits', 'msp_len_bits', 'msp_mpos_bits', 'msp_assert_shift', 'msp_simple_max_p',
                           'msp_simple_bucket_bits', 'msp_bucket_bits', 'msp_exts_shift'), items['msp']):
             o.append('Definition %s : N := %d.' % (nm, v))
+        o.append('')
+    if 'slice_debug_limit' in items:
+        o.append('(* dna_string.rs: Debug of DnaStringSlice prints the bases when length < this, a summary otherwise *)')
+        o.append('Definition slice_debug_limit : N := %d.' % items['slice_debug_limit'])
         o.append('')
     return '\n'.join(o)
 
